@@ -85,6 +85,12 @@ def c02(chk, tier):
         "(intervals with start and length) into disambiguate_matching; records with contention "
         "go through load+classify. B: TLC judges NoBlockingPair / storm-optimality of what the "
         "code recorded on random records and field data. non-trivial = instance with contention")
+    # every instance size, every proposal order: invariants, stability, storm-optimality, termination bound
+    from . import tlaps
+    tlaps.prove(chk, ["Matching.tla", "MatchingProof.tla"],
+                [("MatchingProof.tla", "the loop of Matching.tla keeps its invariants, ends within |E| iterations with a stable "
+                                       "matching (ties allowed) which is storm-optimal when there are no ties, for arbitrary "
+                                       "instances and any proposal order")])
     for ns, nr, mp_ in ((2, 2, 2), (2, 3, 1)) if q else ((2, 2, 3), (2, 3, 2), (3, 2, 2)):
         MM.replay_matching(chk, "MCMatching %dx%d prefs 0..%d" % (ns, nr, mp_),
                            {"NS": str(ns), "NR": str(nr), "MaxPref": str(mp_), "Geo": "FALSE",
